@@ -44,6 +44,9 @@ ASSUMPTIONS = [
     "descending; NumPy backend only (CuPy / RTX paths need a GPU)",
     "terrains with many distinct heights on grids larger than 4x4 are reached only through <= 2 (thorough: <= 3 on "
     "5x5) deviations from a flat base",
+    "two cells at exactly the same distance from the observer with overlapping angular spans do not exist for offsets "
+    "<= 8 cells with the cell sizes used (verified by enumeration), so equal keys in the distance-keyed status "
+    "structure are never simultaneously active within these bounds",
 ]
 
 # configuration: observer_elev, target_elev, (x cell size, y cell size), y descending?, dtype
@@ -163,18 +166,23 @@ class ViewshedSpace(Space):
     def setup(self):
         from xrspatial import viewshed
         self.viewshed = viewshed
+        self.templates = {}
         z = np.zeros((3, 3))
         viewshed(dataarray(z.copy()), x=1.0, y=1.0, observer_elev=1.0, target_elev=0.0)     # JIT warm-up (~25 s)
         line_of_sight(z, 1, 1, 1.0, 0.0, 1.0, 1.0, EPS)
 
     def call(self, a, vr, vc, cfg):
-        h, w = self.shape
-        ew, ns = cfg["cell"]
-        xs = -1.0 + ew * np.arange(w)
-        ys = 2.0 + ns * np.arange(h)
-        if cfg["desc"]:
-            ys = ys[::-1].copy()
-        r = dataarray(a.astype(cfg["dtype"]), ys, xs)
+        tk = (cfg["cell"], cfg["desc"])
+        if tk not in self.templates:        # coordinates built once per geometry; every call gets a new DataArray
+            h, w = self.shape
+            ew, ns = cfg["cell"]
+            xs = -1.0 + ew * np.arange(w)
+            ys = 2.0 + ns * np.arange(h)
+            if cfg["desc"]:
+                ys = ys[::-1].copy()
+            self.templates[tk] = (dataarray(np.zeros(self.shape), ys, xs), xs, ys)
+        tpl, xs, ys = self.templates[tk]
+        r = tpl.copy(data=a.astype(cfg["dtype"]))
         if cfg.get("defaults"):
             return self.viewshed(r, x=float(xs[vc]), y=float(ys[vr]))
         return self.viewshed(r, x=float(xs[vc]), y=float(ys[vr]), observer_elev=cfg["oe"], target_elev=cfg["te"])
